@@ -5,6 +5,7 @@ import GramModel.Lemmas.Progress
 import GramModel.Typing
 import GramModel.Lemmas.Canonical
 import GramModel.Lemmas.SoundRun
+import GramModel.Lemmas.FrontEnd
 
 /-!
 # C01 — accepted programs never get stuck (progress)
@@ -141,3 +142,40 @@ example : ∀ n, isValue (evalFuel n SoundRun.iteProg) = true ∨ (∃ r', Step 
   fun n =>
     let ⟨e, ty, s, h1, h2, h3, h4, h5, _⟩ := SoundRun.demoOK_spec SoundRun.iteProg_ok
     C01_checker_sound_run_nolet 40 n SoundRun.iteProg e ty s h1 h2 h3 h4 h5
+
+/-! ## End to end: from the program text to the run -/
+
+/-- **Type soundness from the text on** (group-free, fully annotated programs): take any text, any classifier and interner.
+If the front end (`frontEnd`, Lemmas/FrontEnd.lean: `tokenize`, token conversion, `parse` — parse phase, re-association, name
+resolution, definition-order check — in the empty context) answers with a term that is hole-free (every parameter annotated, no
+`_`) and has no definition group, and the model of the type checker accepts that term from the initial state without a
+diagnostic, then however many steps the program is run, the term reached is a value, or can take a step, or is stuck at a
+division by zero — never at a variable, a call of a non-function, arithmetic / comparison / branching on a value of the wrong
+kind, or a hole.  This is `C01_checker_sound_run_nolet` with the front end in front: its well-scopedness hypothesis is
+discharged by `frontEnd_term_scoped` (`C14_front_end_scoped`: resolution soundness C08 + "`check_definitions` only appends
+diagnostics"), and by `C14_front_end_total` the front end itself never panics.  (Literals: the tokenizer's `Nat` payload
+becomes the `Int` literal `Int.ofNat n` in `parse_integer_literal`; negative numbers are negations.) -/
+def C01_pipeline_nolet_stmt : Prop :=
+  ∀ (cc : CharClass) (I : List Char → Name) (text : List Char) (r : PModel.RTm) (fuel n : Nat) (e ty : Tm) (s : St),
+    frontEnd cc I text [] = .ok (.term r) → r.erase.holeFree = true → CheckSound.noLet r.erase = true →
+    inferS fuel r.erase {} = .ok (e, ty) s → s.nerrs = 0 →
+    let v := evalFuel n r.erase
+    isValue v = true ∨ (∃ v', Step v v') ∨ stuckReason v = some .divZero
+theorem C01_pipeline_nolet : C01_pipeline_nolet_stmt :=
+  fun _ _ _ r fuel n e ty s h hf hnl hi hn =>
+    C01_checker_sound_run_nolet fuel n r.erase e ty s hf
+      (frontEnd_term_scoped (ctx := []) List.nodup_nil (fun _ hx => nomatch hx) h) hnl hi hn
+
+/-- Non-vacuity, end to end and by kernel evaluation: the text `((x : int) => x + 1) 2` (classifier `C10_cc`, identifiers
+interned by their length) satisfies every hypothesis of `C01_pipeline_nolet` — the front end answers with the hole-free,
+group-free term `((x : int) => x + 1) 2`, the checker model (fuel 40) accepts it without a diagnostic at type `int` — and run
+for 5 steps it is the value `3`. -/
+example : ∃ (r : PModel.RTm) (e ty : Tm) (s : St),
+    frontEnd C10_cc List.length FrontEndDemo.text [] = .ok (.term r) ∧ r.erase.holeFree = true ∧
+    CheckSound.noLet r.erase = true ∧ inferS 40 r.erase {} = .ok (e, ty) s ∧ s.nerrs = 0 ∧
+    zonk 40 s.store ty = some .int ∧ isValue (evalFuel 5 r.erase) = true ∧ evalFuel 5 r.erase = .lit 3 := by
+  obtain ⟨r, h1, h2⟩ := FrontEndDemo.frontEnd_text
+  have hd : SoundRun.demoOK 40 5 FrontEndDemo.tm .int (.lit 3) = true := by decide +kernel
+  obtain ⟨e, ty, s, a1, _, a3, a4, a5, a6, a7, a8⟩ := SoundRun.demoOK_spec hd
+  rw [← h2] at a1 a3 a4 a7 a8
+  exact ⟨r, e, ty, s, h1, a1, a3, a4, a5, a6, a7, a8⟩
